@@ -1,7 +1,8 @@
 ---------------------------- MODULE Trace_Ledger ----------------------------
 (* Code -> spec: every line of the trace file is one ledger (a window of the example ledger, a random ledger, a
    printed-and-reloaded ledger with padding) projected to the abstract vocabulary, with the rows the real tables
-   showed for every modelled column.  The specification's traversal Rows(ledger, keys) is the oracle: one TLC step
+   showed for every modelled column AFTER the recorded history of statements (any form, any FROM qualifiers) was
+   executed on the same connection.  The specification's traversal RowsAfter(history, ledger, keys) is the oracle: one TLC step
    per line, a line whose rows differ is reported (table, row number, column, expected cell) and the run goes on.
    Ledgers outside the domain of the property (WellFormed) are reported as skipped, never judged. *)
 EXTENDS Ledger, Json, IOUtils
@@ -50,7 +51,7 @@ Expected(S, x) ==      \* the specification's cell for a mismatch, as JSON text
 TInit ==
     /\ lx = <<>> /\ tab = "postings" /\ ei = 0 /\ pj = 0
     /\ ctx = [rowid |-> 0, entry |-> 0, posting |-> 0]
-    /\ emitted = <<>> /\ dir = <<>> /\ done = FALSE
+    /\ emitted = <<>> /\ dir = <<>> /\ done = FALSE /\ conn = Conn0
     /\ l = 1 /\ nbad = 0 /\ nskip = 0
 
 TNext ==
@@ -58,10 +59,10 @@ TNext ==
     /\ l' = l + 1
     /\ UNCHANGED vars
     /\ LET e == TraceLog[l] IN
-       IF ~WellFormed(e.ledger)
+       IF ~(WellFormed(e.ledger) /\ IsHistory(e.history))
        THEN /\ PrintT(ToJson([verdict |-> "skipped", id |-> e.id, line |-> l]))
             /\ nskip' = nskip + 1 /\ UNCHANGED nbad
-       ELSE LET S == Rows(e.ledger, e.keys)
+       ELSE LET S == RowsAfter(e.history, e.ledger, e.keys)
                 mm == Mismatches(S, e.rows)
             IN IF mm = {} THEN UNCHANGED <<nbad, nskip>>
                ELSE /\ PrintT(ToJson([verdict |-> "rejected", id |-> e.id, line |-> l, n |-> Cardinality(mm),
